@@ -28,7 +28,7 @@ CLAIMED.update({
    "deterministic simulation: simulated UDP/TCP behind RuntimeProvider, seeded forged-datagram / reorder / duplicate / close fault plans, history oracle with provenance markers", "4 (C16)"),
  "C12": ("exploration",
    "Seeded histories of TSIG-signed UPDATE messages pushed through the real Request parser -> Catalog -> SqliteZoneHandler -> InMemoryZoneHandler (+ journal) inside the simulator, compared message by message with a literal RFC 2136 reference model (accept/reject, rcode when unambiguous, full zone contents, RFC 1982 serial rule, SOA/NS/CNAME well-formedness). Fault-free half of the C14 simulation.",
-   "TTLs excluded from content comparison; one request at a time (no racing UPDATEs on a multi-thread runtime); reference model shares hickory's Name/RData data types (not its update logic).",
+   "TTLs excluded from content comparison; reference model shares hickory's Name/RData data types (not its update logic). Second part `concurrent`: 2-3 UPDATEs as concurrent simulator tasks (guarded scheduling points between the steps of update() let the seeded scheduler interleave them); oracle = serializability against the same code run sequentially in every order.",
    "deterministic simulation (fault-free configuration of the update rig): seeded UPDATE histories against an executable RFC 2136 reference model, refinement check after every message", "4 (C12)"),
  "C14": ("fault_enumeration",
    "For seeded UPDATE histories on a journal-backed zone, EVERY SQLite commit boundary of the journal (observed through commit/update/rollback hooks, initial dump included) is taken as a crash point: a journal holding exactly the committed prefix is recovered with the real recover_with_journal and must equal the server's own state after a whole number of messages (acked <= j <= started), serial included; one boundary per run continues with a post-recovery history compared with a never-crashed twin; a disk-full fault (max_page_count) is armed in 1 run of 5.",
@@ -135,7 +135,7 @@ def main():
     except ImportError:
         print("jsonschema not importable here; run with python3-vt")
 
-HOOK_COMMITS = ["8ec5480"]
+HOOK_COMMITS = ["8ec5480", "81c66fa"]
 
 if __name__ == "__main__":
     main()
